@@ -5,10 +5,12 @@ import (
 	"os"
 
 	"verifharness/core"
+	"verifharness/props/c08"
 	"verifharness/props/c13"
 )
 
 var checks = map[string]func(*core.Ctx) int{
+	"C08": c08.Run,
 	"C13": c13.Run,
 }
 
